@@ -335,6 +335,13 @@ func (k Keeper) StartRequestContext(
 	// add to the new request batch queue if existing in neither expired nor new request batch queue
 	if !k.HasRequestBatchExpiration(ctx, requestContextID) &&
 		!k.HasNewRequestBatch(ctx, requestContextID) {
+		if requestContext.Repeated && requestContext.RepeatedTotal > 0 &&
+			int64(requestContext.BatchCounter) >= requestContext.RepeatedTotal {
+			// every batch has already been issued (the last one expired while paused)
+			k.CompleteServiceContext(ctx, requestContext, requestContextID)
+			return nil
+		}
+
 		k.AddNewRequestBatch(ctx, requestContextID, ctx.BlockHeight())
 	}
 
